@@ -342,7 +342,9 @@ def generate(rng, prop, tier):
     if km['kind'] == 'pickle' and km['arg'] == 'json':
         pool = [p for p in pool]          # all JSON-able already
     if cfg.get('tol') is not None:
-        pool = pool + [1.04, 1.06, 2.249]
+        # rounded floats must not collide with ints of the pool or with the defaults y=2, k=1
+        # (3.04 -> 3.0 == 3 are equal keys for a dict but distinct names for a directory archive)
+        pool = [p for p in pool if p not in (3, 4, 1.5, 2.25)] + [3.04, 3.06, 4.249]
     rng.shuffle(pool)
     hot = [logical_call(rng, fn, pool[:6], True) for _ in range(rng.randint(2, 9))]
     strict = prop in ('C02', 'C07') and cfg['backend'] is not None and not cfg['direct'] and \
